@@ -92,3 +92,7 @@
 (declare-fun jsonIfaceOK (Bytes) Bool)     ; codec.UnmarshalInterfaceJSON succeeds on these bytes
 (declare-fun jsonIface (Bytes) Iface)
 (declare-fun anyOK (Iface) Bool)           ; codectypes.NewAnyWithValue succeeds
+
+; ---- oracle path ----------------------------------------------------------------------------------------------
+; sign bytes of a vote extension: length-delimited protobuf of CanonicalVoteExtension{extension, height, round, chain id}
+(declare-fun canonVEBytes (Bytes Int Int Bytes) Bytes)   ; (chain id, height, round, extension)
